@@ -6,6 +6,7 @@ statements, blank lines, tab- or space-indentation and non-ASCII text occur with
 """
 from __future__ import annotations
 
+import os
 import random
 
 NAMES = ['a', 'b', 'c', 'x', 'y', 'value', 'items', 'self', 'n', 'data_1', 'Ab', 'T', 'k', 'v', 'fn', 'Base', 'Sub', 'e']
@@ -307,4 +308,37 @@ def gen_module(rng: random.Random, n_statements: int | None = None, unit: str | 
 	unit = unit if unit is not None else rng.choice(['\t', '\t', '    ', '  '])
 	g = Gen(rng, unit, max_depth=rng.randint(2, 4))
 	src = g.module(n_statements if n_statements is not None else rng.randint(1, 6))
-	return src, {'unit': {'\t': 'tab', '    ': 'sp4', '  ': 'sp2'}[unit]}
+	return src, {'unit': {'\t': 'tab', '    ': 'sp4', '  ': 'sp2'}[unit], 'indent': unit}
+
+
+QUICK_REAL = [
+	'rogw/tranp/compatible/libralies/classes.py',
+	'rogw/tranp/view/helper/block.py',
+	'rogw/tranp/lang/sequence.py',
+	'rogw/tranp/syntax/ast/entry.py',
+	'rogw/tranp/providers/module.py',
+	'example/FW/string.py',
+	'tests/unit/rogw/tranp/implements/syntax/tranp/test_token.py',
+	'rogw/tranp/syntax/node/embed.py',
+]
+
+
+def real_files(thorough: bool, rng: random.Random, limit: int) -> list[str]:
+	"""Real source files of the repository (relative paths) that are free of CR characters: a fixed varied set that is
+	inside the grammar for the quick tier, every .py file under rogw/example/tests (shuffled) for the thorough tier —
+	files outside the grammar are skipped by the callers when the parse fails."""
+	from harness.common import REPO, repo_py_files
+	files = [f for f in QUICK_REAL if os.path.exists(os.path.join(REPO, f))]
+	if thorough:
+		extra = [os.path.relpath(f, REPO) for f in repo_py_files('rogw', 'example', 'tests')]
+		rng.shuffle(extra)
+		files.extend(f for f in extra if f not in files)
+	out = []
+	for f in files:
+		with open(os.path.join(REPO, f), 'rb') as fh:
+			if b'\r' in fh.read():
+				continue
+		out.append(f)
+		if len(out) >= limit:
+			break
+	return out
